@@ -309,7 +309,7 @@ func cmdCheck(args []string) int {
 			file := filepath.Join(replayDir, fmt.Sprintf("%s-%d.json", sanitize(v.Label), n))
 			data, _ := json.MarshalIndent(map[string]interface{}{
 				"property": id, "package": o.Pkg, "harness": o.Harness, "label": v.Label, "kind": v.Kind,
-				"detail": v.Detail, "vector": v.Vector, "bounds": bounds, "stack": v.Stack, "known": v.Known,
+				"detail": v.Detail, "vector": v.Vector, "bounds": bounds, "stack": v.Stack, "known": v.Known, "sched": v.Sched,
 			}, "", " ")
 			os.WriteFile(file, data, 0o644)
 			tries := 1
